@@ -323,6 +323,38 @@ def _var_names(body):
     return out
 
 
+def _const_names(p):
+    out = set()
+    for d in nodes(p, "SDecl"):
+        if d[1] == "KConst":
+            out |= _pat_names([q for q, _ in d[2]])
+    for h in nodes(p, "FHDecl"):
+        if h[1] == "KConst":
+            out |= _pat_names([h[2]])
+    for h in nodes(p, "FIDecl"):
+        if h[1] == "KConst":
+            out |= _pat_names([q for q, _ in h[2]])
+    for c in nodes(p, "SClassDecl"):
+        out.add(tuple(c[1]))
+    for c in p["p_classes"]:
+        if c["c_name"]:
+            out.add(tuple(c["c_name"]))
+    for e in nodes(p, "EFunc"):
+        if e[1] < len(p["p_funcs"]) and p["p_funcs"][e[1]]["f_name"] and p["p_funcs"][e[1]]["f_kind"] in ("FNormal", "FGenerator", "FAsync"):
+            out.add(tuple(p["p_funcs"][e[1]]["f_name"]))
+    return out
+
+
+def _with_assigns_const_name(p):
+    consts = _const_names(p)
+    if not consts:
+        return False
+    for w in nodes(p, "SWith"):
+        if _assigned_ids(w[2]) & consts:
+            return True
+    return False
+
+
 def classify(p, ref, boa, probe=None):
     """Stable class label of a failing case: a predicate over the (shrunk) program and the two observations,
     never over the seed.  Order matters: most specific first."""
@@ -395,10 +427,6 @@ def classify(p, ref, boa, probe=None):
         if lex & _assigned_ids({k: p[k] for k in ("p_funcs", "p_body")}):
             return "tdz-assign-before-init"
         return "tdz-missing"
-    # an assignment inside `with` to a name that is also a const of an enclosing scope is rejected at compile time
-    if has(p, "SWith") and (bt + bc).count("TypeError") > (rt + rc).count("TypeError") and \
-            any(d[1] == "KConst" for d in nodes(p, "SDecl")):
-        return "with-assignment-to-outer-const-name"
     # a labelled break / continue leaving an inner for-of / for-in also leaves an enclosing iterator loop: boa prints less
     if any(b[1] is not None for b in nodes(p, "SBreak") + nodes(p, "SContinue")) and len(nodes(p, "SForOf") + nodes(p, "SForIn")) >= 2 \
             and len(ba) < len(ra) and subseq(ba, ra) and rc == bc:
@@ -416,6 +444,10 @@ def classify(p, ref, boa, probe=None):
         pairs = [(x, y) for x, y in zip(d1[2].split(" "), d1[3].split(" ")) if x != y]
         if pairs and all(x == "NaN" for x, _ in pairs):
             return "exponent-nan"
+    # an assignment / compound assignment / update inside a `with` body to a name that an enclosing scope binds immutably (const
+    # declaration, for / for-in / for-of const head, class name, named function expression) is rejected statically with TypeError
+    if (bt + bc).count("TypeError") > (rt + rc).count("TypeError") and _with_assigns_const_name(p):
+        return "with-assignment-to-outer-const-name"
     # operand read after the right operand's side effect:  x OP (x = ..)
     for b in (nodes(p, "EBinary") + nodes(p, "EOpAssign")) if same_shape else []:
         if b[0] == "EBinary" and b[2][0] == "EId" and tuple(b[2][1]) in _assigned_ids(b[3]):
